@@ -106,6 +106,73 @@ PREAMBLE = ("Definition tree (i : nat) : expr float :=\n  match i with\n" +
             "  | BMErr => Z.eqb code 1%Z | BMFuel => false\n"
             "  end.\n")
 
+def V_(i): return ("v", i)
+
+
+def quad_tree(n):
+    """k - sum_{i<=j} (a_ij * d_i) * d_j, d_i = x[i] - c_i; params: c_0..c_{n-1}, k, a_ij (i<=j, row-major)"""
+    d = [SUB(V_(i), P(i)) for i in range(n)]
+    acc, q = None, n + 1
+    for i in range(n):
+        for j in range(i, n):
+            t = MUL(MUL(P(q), d[i]), d[j]); q += 1
+            acc = t if acc is None else ADD(acc, t)
+    return (q, SUB(P(n), acc))
+
+
+_x0, _x1 = V_(0), V_(1)
+VTREES = {10: quad_tree(1), 11: quad_tree(2), 12: quad_tree(3),
+          # 13: negative Rosenbrock  -((1-x0)(1-x0) + p0 (x1 - x0 x0)(x1 - x0 x0))
+          13: (1, NEG(ADD(MUL(SUB(C(1), _x0), SUB(C(1), _x0)),
+                          MUL(MUL(P(0), SUB(_x1, MUL(_x0, _x0))), SUB(_x1, MUL(_x0, _x0))))))}
+
+
+def vto_py(t):
+    k = t[0]
+    if k == "v": return "x[%d]" % t[1]
+    if k == "p": return "p%d" % t[1]
+    if k == "c": return repr(t[1])
+    if k == "neg": return "(-%s)" % vto_py(t[1])
+    return "(%s %s %s)" % (vto_py(t[1]), k, vto_py(t[2]))
+
+
+def vto_coq(t):
+    k = t[0]
+    if k == "v": return "(EV %d)" % t[1]
+    if k == "p": return "(EP %d)" % t[1]
+    if k == "c": return "(EC %s%%float)" % flit(t[1])
+    if k == "neg": return "(ENeg %s)" % vto_coq(t[1])
+    return "(%s %s %s)" % ({"+": "EAdd", "-": "ESub", "*": "EMul", "/": "EDiv"}[k], vto_coq(t[1]), vto_coq(t[2]))
+
+
+def ev_frac_v(t, ps, xs):
+    k = t[0]
+    if k == "v": return xs[t[1]]
+    if k == "p": return ps[t[1]]
+    if k == "c": return Fraction(t[1])
+    if k == "neg": return -ev_frac_v(t[1], ps, xs)
+    a, b = ev_frac_v(t[1], ps, xs), ev_frac_v(t[2], ps, xs)
+    return a + b if k == "+" else a - b if k == "-" else a * b if k == "*" else a / b
+
+
+VPREAMBLE = ("Definition vtree (i : nat) : expr float :=\n  match i with\n" +
+             "".join("  | %d%%nat => %s\n" % (i, vto_coq(t)) for i, (_, t) in sorted(VTREES.items())) +
+             "  | _ => EX\n  end.\n"
+             "Definition vobj (i : nat) (ps : list float) : list float -> float := eevalv (vtree i) ps.\n")
+_VFUNCS = {}
+
+
+def vfuncs(i):
+    if i not in _VFUNCS:
+        from numba import njit
+        npar, t = VTREES[i]
+        src = "def f(x, %s):\n    return %s\n" % (", ".join("p%d" % k for k in range(npar)), vto_py(t))
+        ns = {}
+        exec(src, ns)
+        _VFUNCS[i] = (ns["f"], njit(ns["f"]))
+    return _VFUNCS[i]
+
+
 _FUNCS = {}
 
 
@@ -265,10 +332,24 @@ def run(ctx):
     for solver_name in ("bisect", "brentq"):
         solver = getattr(RF, solver_name)
         cases, meta = [], []
-        for stream, count in streams:
+        # "abs_tie" stream (brentq): |f(a)| == |f(b)| exactly with a full-mantissa slope, so that the secant step equals the
+        # bisection step up to one rounding: separates `abs(fcur) < abs(fpre)` from `<=` (which is otherwise equivalent)
+        for stream, count in streams + ([("abs_tie", 1500 if thorough else 300)] if solver_name == "brentq" else []):
             for _ in range(count):
-                fam, ps, a, b, mode = gen_bracket_case(rng, underflow=(stream == "underflow"))
+                if stream == "abs_tie":
+                    F0 = funcs(0)[0]
+                    while True:
+                        c1 = rng.uniform(0.5, 2.0) * rng.choice([1, -1]); r_ = rng.randrange(-32, 33) / 8.0
+                        w_ = rng.choice([0.5, 1.0, 3.0, 0.375, 5.0])
+                        ps = (-c1 * r_, c1, 0.0, 0.0, 1.0, 0.0); a, b = r_ - w_, r_ + w_
+                        if F0(a, *ps) == -F0(b, *ps) and F0(a, *ps) != 0:
+                            break
+                    fam, mode = 0, "abs_tie"
+                else:
+                    fam, ps, a, b, mode = gen_bracket_case(rng, underflow=(stream == "underflow"))
                 xtol, rtol, maxiter, disp = tolerances(rng, 1.0)
+                if stream == "abs_tie":
+                    xtol, rtol, maxiter = 2e-12, float(4 * np.finfo(float).eps), 100
                 if mode in ("huge", "tiny"):
                     xtol = xtol * max(abs(a), abs(b), 1e-300) if rng.random() < 0.7 else xtol
                 if mode == "exact_tol":
@@ -525,19 +606,20 @@ def run(ctx):
         inp, out = meta[i]
         ctx.mismatch("C17.Model.brent_max (PrimFloat instance) vs scalar_maximization.brent_max", inp, out)
 
-    # ================================================================ nelder_mead (oracle only)
-    from numba import njit
-
-    @njit
-    def quad(x, A, c, k):
-        d = x - c
-        s = 0.0
-        for i in range(d.size):
-            for j in range(d.size):
-                s += d[i] * A[i, j] * d[j]
-        return k - s
-
-    nm_count = 800 if thorough else 50
+    # ================================================================ nelder_mead
+    import re, inspect
+    nm_src = inspect.getsource(__import__("quantecon.optimize.nelder_mead", fromlist=["x"])._initialize_simplex.py_func)
+    nonzdelt = float(re.search(r"nonzdelt\s*=\s*([0-9.eE+-]+)", nm_src).group(1))
+    zdelt = float(re.search(r"\bzdelt\s*=\s*([0-9.eE+-]+)", nm_src).group(1))
+    NM_PRE = PREAMBLE + VPREAMBLE + (
+        "Definition nm_eqb (o : nm_outcome float) (e : Z * list float * bool * float * bool * Z * list (list float)) : bool :=\n"
+        "  let '(code, x, isinf, nf, suc, nit, V) := e in\n"
+        "  match o with\n"
+        "  | NMRes x' nf' suc' nit' V' => Z.eqb code 0%Z && Fs_eqb x' x && Bool.eqb suc' suc && Z.eqb nit' nit && Fss_eqb V' V &&\n"
+        "      match nf' with PInf => isinf | Fin v => negb isinf && PrimFloat.eqb v nf end\n"
+        "  | NMErr => Z.eqb code 1%Z | NMFuel => false end.\n")
+    cases, meta = [], []
+    nm_count = 800 if thorough else 60
     for case_no in range(nm_count + 2):
         n = rng.randrange(1, 4)
         L = np.array([[rng.randrange(-4, 5) / 4.0 if j < i else (rng.randrange(2, 9) / 4.0 if j == i else 0.0)
@@ -546,16 +628,23 @@ def run(ctx):
         c = np.array([rng.randrange(-16, 17) / 4.0 for _k in range(n)])
         k0 = rng.randrange(-8, 9) / 2.0
         x0 = c + np.array([rng.choice([-1, 1]) * rng.choice([0.25, 1.0, 2.5]) for _k in range(n)])
-        mode = rng.choice(["free", "free", "inactive", "active", "fewiter"])
+        mode = rng.choice(["free", "free", "inactive", "active", "active", "fewiter", "rosenbrock", "zero_start", "badbounds"])
         bounds = np.array([[], []]).T
-        if mode in ("inactive", "active", "fewiter"):
+        if mode in ("inactive", "active", "fewiter", "badbounds"):
             lo = np.minimum(x0, c) - 1.0; hi = np.maximum(x0, c) + 1.0 + 0.06 * np.abs(x0)
             if mode == "active":
-                j = rng.randrange(n)
-                if x0[j] > c[j]: lo[j] = c[j] + rng.choice([0.125, 0.5]) * (x0[j] - c[j])
-                else: hi[j] = c[j] - rng.choice([0.125, 0.5]) * (c[j] - x0[j])
+                for j in range(n):
+                    if rng.random() < 0.6:
+                        if x0[j] > c[j]: lo[j] = c[j] + rng.choice([0.125, 0.5, 0.9]) * (x0[j] - c[j])
+                        else: hi[j] = c[j] - rng.choice([0.125, 0.5, 0.9]) * (c[j] - x0[j])
                 lo = np.minimum(lo, x0); hi = np.maximum(hi, x0 * 1.0)
+                if rng.random() < 0.3: hi = x0 + rng.choice([0.01, 0.1]) + 0.05 * np.abs(x0)   # tight box: shrink steps occur
+            if mode == "badbounds":
+                if rng.random() < 0.5: lo[0], hi[0] = hi[0], lo[0]       # lower bound above upper bound
+                else: lo = x0 + 0.5; hi = x0 + 3.0                       # start outside the bounds: all vertices get +inf
             bounds = np.column_stack([lo, hi])
+        if mode == "zero_start":
+            x0 = x0.copy(); x0[rng.randrange(n)] = 0.0
         max_iter = rng.choice([1000, 1000, 3, 10]) if mode != "fewiter" else rng.choice([0, 1, 2, 5])
         if case_no == nm_count:      # the recorded witness of finding D12, verbatim
             n = 1; A = np.array([[0.5625]]); c = np.array([0.0]); k0 = -1.0; x0 = np.array([-2.5])
@@ -564,34 +653,61 @@ def run(ctx):
             n = 3; A = np.array([[0.5625, 0.5625, 0.0], [0.5625, 0.8125, 0.5], [0.0, 0.5, 1.5625]])
             c = np.array([-2.75, -3.5, -0.75]); k0 = -2.0; x0 = np.array([-2.5, -1.0, 1.75])
             mode = "inactive"; bounds = np.array([[-3.75, -1.35], [-4.5, 0.06], [-1.75, 2.855]]); max_iter = 1000
-        res = nelder_mead(quad, x0.copy(), bounds=bounds, args=(A, c, k0), max_iter=max_iter)
-        x = np.array(res.x, dtype=float); fun = float(res.fun)
-        inp = {"solver": "nelder_mead", "A": A.tolist(), "c": c.tolist(), "k": k0, "x0": x0.tolist(),
+        if mode == "rosenbrock":     # non-concave objective: correspondence + generic oracle checks only (shrink steps occur)
+            n = 2; fam = 13; ps = (float(rng.choice([1, 10, 100])),)
+            x0 = np.array([rng.randrange(-30, 31) / 8.0, rng.randrange(-30, 31) / 8.0])
+            if rng.random() < 0.5:
+                bounds = np.column_stack([x0 - rng.choice([0.1, 0.5, 2.0]), x0 + rng.choice([0.1, 0.5, 2.0]) + 0.06 * np.abs(x0)])
+        else:
+            fam = 9 + n
+            ps = tuple(float(v) for v in c) + (float(k0),) + tuple(float(A[i, j]) * (1.0 if i == j else 2.0) for i in range(n) for j in range(i, n))
+        Fv, Jv = vfuncs(fam)
+        try:
+            res = nelder_mead(Jv, x0.copy(), bounds=bounds, args=ps, max_iter=max_iter)
+            x = np.array(res.x, dtype=float); fun = float(res.fun)
+            out = (0, x.tolist(), fun == -math.inf, -fun if fun != -math.inf else 0.0, bool(res.success), int(res.nit),
+                   np.array(res.final_simplex, dtype=float).tolist())
+        except ValueError:
+            res = None
+            out = (1, [], False, 0.0, False, 0, [])
+        blist = "[" + "; ".join(tup(fl(b_[0]), fl(b_[1])) for b_ in bounds.tolist()) + "]" if bounds.shape[0] else "(@nil (float * float))"
+        cases.append(tup("%d%%nat" % fam, flist(ps), blist, flist(x0.tolist()), zl(max_iter),
+                         tup(zl(out[0]), flist(out[1]), blit(out[2]), fl(out[3]), blit(out[4]), zl(out[5]), flist2(out[6]))))
+        inp = {"solver": "nelder_mead", "family": fam, "params": list(ps), "A": A.tolist(), "c": c.tolist(), "k": k0, "x0": x0.tolist(),
                "bounds": bounds.tolist(), "max_iter": max_iter, "mode": mode}
-        ctx.case(("nelder_mead", n, A.tolist(), c.tolist(), x0.tolist(), bounds.tolist(), max_iter), nontrivial=(int(res.nit) >= 2),
-                 sample={"call": inp, "impl": {"x": x.tolist(), "fun": fun, "success": bool(res.success), "nit": int(res.nit)}})
-        ctx.count("nelder_mead:mode=%s" % mode); ctx.count("nelder_mead:success=%s" % bool(res.success))
+        meta.append((inp, out))
+        ctx.case(("nelder_mead", fam, ps, x0.tolist(), bounds.tolist(), max_iter), nontrivial=(out[0] == 0 and out[5] >= 2),
+                 sample={"call": inp, "impl": {"x": out[1], "fun": -out[3], "success": out[4], "nit": out[5]}})
+        ctx.count("nelder_mead:mode=%s" % mode); ctx.count("nelder_mead:%s" % ("ValueError" if out[0] else "success=%s" % out[4]))
+        bad_b = bounds.shape[0] > 0 and bool(np.any(bounds[:, 0] > bounds[:, 1]))
+        if bad_b != (out[0] == 1):
+            ctx.fail("nelder_mead_bounds_check", "ValueError iff some lower bound exceeds its upper bound", inp, out[:1], None)
+            continue
+        if out[0] == 1:
+            continue
 
         def qexact(xx):
-            d = [Fraction(float(u)) - Fraction(float(v)) for u, v in zip(xx, c)]
-            return Fraction(k0) - sum(d[i] * Fraction(float(A[i, j])) * d[j] for i in range(n) for j in range(n))
+            return ev_frac_v(VTREES[fam][1], [F_(v) for v in ps], [F_(float(u)) for u in xx])
         inside = lambda xx: bounds.shape[0] == 0 or bool(np.all(bounds[:, 0] <= xx) and np.all(xx <= bounds[:, 1]))
         impl = {"x": x.tolist(), "fun": fun, "success": bool(res.success), "nit": int(res.nit)}
+        verts = [x0.copy() for _k in range(n + 1)]          # initial simplex as the code builds it
+        for i in range(n):
+            verts[i + 1][i] = verts[i + 1][i] * (1 + nonzdelt) if verts[i + 1][i] != 0.0 else zdelt
+        if not any(inside(v) for v in verts):
+            if fun != -math.inf:
+                ctx.fail("nelder_mead_fun", "no initial vertex inside the bounds but fun is not -inf", inp, impl, None)
+            continue
         if not inside(x):
             ctx.fail("nelder_mead_outside_bounds", "returned vertex outside the bounds", inp, impl, None)
             continue
         if abs(Fraction(fun) - qexact(x)) > Fraction(1, 10**9) * (1 + abs(qexact(x))):
             ctx.fail("nelder_mead_fun", "fun != f(x) (1e-9 relative)", inp, impl, float(qexact(x)))
-        # initial simplex as the code builds it
-        verts = [x0.copy() for _k in range(n + 1)]
-        for i in range(n):
-            verts[i + 1][i] = verts[i + 1][i] * 1.05 if verts[i + 1][i] != 0.0 else 0.00025
         best0 = max([qexact(v) for v in verts if inside(v)], default=None)
         if best0 is not None and qexact(x) < best0 - Fraction(1, 10**12) * (1 + abs(best0)):
             ctx.fail("nelder_mead_below_initial", "returned value below the best vertex of the initial simplex", inp, impl, float(best0))
-        if bool(res.success) != (int(res.nit) < max_iter) and not (int(res.nit) == max_iter and bool(res.success)):
-            pass
-        if res.success and mode in ("free", "inactive") and max_iter >= 1000:
+        if res.success and int(res.nit) >= max_iter + 1:
+            ctx.fail("nelder_mead_nit", "nit > max_iter", inp, impl, None)
+        if res.success and mode in ("free", "inactive", "zero_start") and max_iter >= 1000:
             # nelder_mead stops on a function-value spread < tol_f = 1e-10; it carries no accuracy guarantee, so "equal to the
             # maximiser" is checked as: value gap f* - f(x) <= 1e-6 and |x - c|_inf <= 1e-3 (stated, fixed tolerances)
             err = max(abs(float(x[i]) - float(c[i])) for i in range(n))
@@ -614,6 +730,84 @@ def run(ctx):
                 else:
                     ctx.fail("nelder_mead_maximiser", "success=True but result is not the maximiser of the concave quadratic (value gap 1e-6, distance 1e-3)",
                              inp, impl, c.tolist())
+        if res.success and mode == "active" and max_iter >= 1000:
+            # active bounds: the routine must at least do as well as the same algorithm with the shrink step's order array
+            # kept a permutation (reference run); a gap > 1e-6 is attributed to the shrink-order line
+            rx, rneg = nm_reference(Fv, x0.tolist(), bounds.tolist(), ps, nonzdelt, zdelt, max_iter, repaired=True)
+            if rneg != math.inf and qexact(x) < F_(-rneg) - Fraction(1, 10**6):
+                ctx.fail("nelder_mead_shrink_order", "success=True with active bounds, beaten by > 1e-6 by the run whose shrink step keeps "
+                         "sort_ind a permutation", dict(inp, shrink_order=True), impl, {"x": rx, "fun": -rneg})
+    ok = ("fun c => let '(fam, ps, b, x0, mi, e) := c in "
+          "nm_eqb (nelder_mead (vobj fam ps) b nm_core_rho_f nm_core_chi_f nm_core_gamma_f nm_core_sigma_f %s %s x0 nm_tol_f_f nm_tol_x_f mi) e"
+          % (fl(nonzdelt), fl(zdelt)))
+    bad = ctx.coq_check("nelder_mead", IMPORTS + "\nFrom QE Require Import Gen.Consts.",
+                        "nat * list float * list (float * float) * list float * Z * (Z * list float * bool * float * bool * Z * list (list float))",
+                        ok, cases, chunk=12, preamble=NM_PRE)
+    for i_ in bad:
+        inp, out = meta[i_]
+        ctx.mismatch("C17.Model.nelder_mead (PrimFloat instance) vs nelder_mead.nelder_mead", inp, out)
+
+
+def F_(x):
+    return Fraction(float(x))
+
+
+def nm_reference(fun, x0, bounds, args, nonzdelt, zdelt, max_iter, repaired, tol_f=1e-10, tol_x=1e-10, rho=1.0, chi=2.0, gam=0.5, sig=0.5):
+    """plain-Python run of the Nelder-Mead iteration; repaired=True keeps the order array a permutation in the shrink step.
+    Used only to attribute an oracle failure to the shrink-order line. Returns (x, neg_fun)."""
+    INF = math.inf
+    n = len(x0)
+    V = [list(x0) for _ in range(n + 1)]
+    for i in range(n):
+        V[i + 1][i] = V[i + 1][i] * (1 + nonzdelt) if V[i + 1][i] != 0.0 else zdelt
+    inb = lambda x: len(bounds) == 0 or (all(bounds[i][0] <= x[i] for i in range(n)) and all(x[i] <= bounds[i][1] for i in range(n)))
+    nb = lambda x: -fun(x, *args) if inb(x) else INF
+
+    def argsort(vals):
+        idx = list(range(len(vals)))
+        for i in range(1, len(idx)):
+            k = idx[i]; j = i
+            while j > 0 and vals[k] < vals[idx[j - 1]]:
+                idx[j] = idx[j - 1]; j -= 1
+            idx[j] = k
+        return idx
+    fv = [nb(v) for v in V]; si = argsort(fv); LV = 1.0; nit = 0
+    xbar = [sum(V[i][j] for i in si[:n]) / n for j in range(n)]
+    while True:
+        b, w = si[0], si[n]
+        if LV < tol_x or fv[w] - fv[b] < tol_f or nit >= max_iter:
+            break
+        shrink = False
+        xr = [xbar[j] + rho * (xbar[j] - V[w][j]) for j in range(n)]; fr = nb(xr)
+        if fr >= fv[b] and fr < fv[si[n - 1]]:
+            V[w] = xr; LV *= rho
+        elif fr < fv[b]:
+            xe = [xbar[j] + chi * (xr[j] - xbar[j]) for j in range(n)]
+            if nb(xe) < fr: V[w] = xe; LV *= rho * chi
+            else: V[w] = xr; LV *= rho
+        else:
+            t = [gam * (xr[j] - xbar[j]) for j in range(n)]
+            if fr < fv[w]: xc = [xbar[j] + t[j] for j in range(n)]; u = rho * gam
+            else: xc = [xbar[j] - t[j] for j in range(n)]; u = gam
+            if nb(xc) < min(fr, fv[w]):
+                V[w] = xc; LV *= u
+            else:
+                shrink = True
+                for i in si[1:]:
+                    V[i] = [V[b][j] + sig * (V[i][j] - V[b][j]) for j in range(n)]; fv[i] = nb(V[i])
+                perm = argsort([fv[i] for i in si[1:]]); old = si[1:]
+                si[1:] = [old[p_] for p_ in perm] if repaired else [p_ + 1 for p_ in perm]
+                xbar = [V[b][j] + sig * (xbar[j] - V[b][j]) + (V[w][j] - V[si[n]][j]) / n for j in range(n)]
+                LV *= sig ** n
+        if not shrink:
+            fv[w] = nb(V[w])
+            for i, j in enumerate(list(si)):
+                if fv[w] < fv[j]:
+                    si[i + 1:] = si[i:-1]; si[i] = w
+                    break
+            xbar = [xbar[j] + (V[w][j] - V[si[n]][j]) / n for j in range(n)]
+        nit += 1
+    return V[si[0]], fv[si[0]]
 
 
 def replay(data):
